@@ -4,6 +4,7 @@ package boltvm
 
 import (
 	"github.com/meshplus/bitxhub-core/agency"
+	"github.com/meshplus/bitxhub-core/boltvm"
 	"github.com/meshplus/bitxhub-kit/types"
 	"github.com/meshplus/bitxhub-model/constant"
 	"github.com/meshplus/bitxhub-model/pb"
@@ -66,4 +67,72 @@ func ZZH_C17_stub_primitives() {
 	zz.Assert("C17.stub-primitive-leaves-state", ok && string(v) == "record")
 	ok2, _ := lg.GetState(target, []byte("role-0xOutsider"))
 	zz.Assert("C17.stub-primitive-leaves-state", !ok2)
+}
+
+// zzRelay is a contract that forwards a call to another contract and reports who it is called by.
+type zzRelay struct {
+	boltvm.Stub
+}
+
+func (r *zzRelay) Who() *boltvm.Response {
+	return boltvm.Success([]byte(r.Caller() + "|" + r.CurrentCaller() + "|" + r.Callee()))
+}
+
+func (r *zzRelay) Relay(target, method string) *boltvm.Response {
+	return r.CrossInvoke(target, method)
+}
+
+func (r *zzRelay) RelayBegin(target string) *boltvm.Response {
+	return r.CrossInvoke(target, "Begin", pb.String("1356:chA:s1-1356:chB:s2-1"), pb.Uint64(0), pb.Bool(false))
+}
+
+// ZZH_C17_caller_identity: the identities every permission check relies on, through the real
+// BoltVM.Run and the real BoltStubImpl.CrossInvoke: in a direct call the current caller is the
+// external account; in a nested call Caller stays the external account, CurrentCaller is the
+// address of the invoking contract and Callee the invoked one. Consequence checked on the real
+// TransactionManager: Begin is accepted only when the invoking contract is the one registered at
+// the interchain contract's address - not directly, and not through any other contract.
+func ZZH_C17_caller_identity() {
+	lg, err := ledger.New(nil, zz.NewStore(), zz.NewStore(), zz.NewBlockFile(), nil, zz.Logger())
+	if err != nil {
+		panic(err)
+	}
+	outsider := types.NewAddressByStr("0x9999999999999999999999999999999999999999")
+	other := types.NewAddressByStr("0x00000000000000000000000000000000000000A1")
+	inter := constant.InterchainContractAddr.Address()
+	tm := constant.TransactionMgrContractAddr.Address()
+	cs := map[string]agency.Contract{
+		other.String(): &zzRelay{},
+		inter.String(): &zzRelay{},
+		tm.String():    &contracts.TransactionManager{},
+	}
+	run := func(to *types.Address, method string, args ...*pb.Arg) ([]byte, error) {
+		ip := &pb.InvokePayload{Method: method, Args: args}
+		input, _ := ip.Marshal()
+		tx := &pb.BxhTransaction{From: outsider, To: to, TransactionHash: types.NewHashByStr("0x1111111111111111111111111111111111111111111111111111111111111111")}
+		ctx := vm.NewContext(tx, 0, nil, 2, lg, zz.Logger(), zz.Choice("audit", 2) == 1, nil)
+		ret, _, err := New(ctx, nil, nil, cs).Run(input, 0)
+		return ret, err
+	}
+	ret, err := run(other, "Who")
+	zz.Assert("C17.identity.direct", err == nil && string(ret) == outsider.String()+"|"+outsider.String()+"|"+other.String())
+	ret, err = run(inter, "Relay", pb.String(other.String()), pb.String("Who"))
+	zz.Assert("C17.identity.nested", err == nil && string(ret) == outsider.String()+"|"+inter.String()+"|"+other.String())
+	// Begin on the real transaction manager
+	id := "1356:chA:s1-1356:chB:s2-1"
+	via := zz.Choice("via", 3)
+	switch via {
+	case 0:
+		_, err = run(tm, "Begin", pb.String(id), pb.Uint64(0), pb.Bool(false))
+	case 1:
+		_, err = run(other, "RelayBegin", pb.String(tm.String()))
+	default:
+		_, err = run(inter, "RelayBegin", pb.String(tm.String()))
+	}
+	ok, _ := lg.GetState(tm, []byte(contracts.TxInfoKey(id)))
+	if via == 2 {
+		zz.Assert("C17.identity.designated-contract-accepted", err == nil && ok)
+	} else {
+		zz.Assert("C17.identity.anybody-else-refused", err != nil && !ok)
+	}
 }
